@@ -39,6 +39,15 @@ PROPS["C14"] = dict(
         "clear_until is only called with index <= height (the property's precondition)",
         "system allocator never fails (Kani default)",
     ],
+    level_text="Bounded model checking of the real ValueStack and BoundedStack<T> code: for capacities 1..=5 "
+               "and every history of up to 3 (quick) / 5 (thorough) operations with solver-chosen operation "
+               "codes, indices, offsets and values, the SAT solver shows the container agrees step by step "
+               "with a bounded-LIFO model written from the property text (contents of every slot, capacity "
+               "rule, nil for missing values, drop-exactly-once), or returns a history that is replayed "
+               "against the native dev and release builds before being reported.",
+    level_note="Trusted: Kani's translation of MIR and CBMC/CaDiCaL; the model in harness/src/c14.rs; bounds "
+               "as stated (capacities and history lengths are concrete, larger ones are outside the claim).",
+    design_ref="DESIGN.md §3 C14",
     cap=dict(quick=420, thorough=2400),
     harnesses=[
         H("c14", "c14_vs_cap1_k3", steps=3, bounds="ValueStack cap 1, 3 ops"),
